@@ -95,7 +95,7 @@ func GenShardScript(t *rapid.T, unhealthyPct int, label string) ShardSpec {
 		return s
 	}
 	s.Status2Fail = rapid.IntRange(0, 2).Draw(t, label+"-status2") == 0
-	s.FailShape = rapid.SampledFrom([]string{"", "503-error", "500-success", "500-success", "200-error", "200-garbage", "404-empty", "400-error", "400-error", "200-wrong-type", "200-wrong-type"}).Draw(t, label+"-failShape")
+	s.FailShape = rapid.SampledFrom([]string{"", "503-error", "500-success", "500-success", "200-error", "200-garbage", "404-empty", "400-error", "400-error", "200-wrong-type", "200-wrong-type", "200-null-data", "200-null-data"}).Draw(t, label+"-failShape")
 	switch rapid.IntRange(0, 8).Draw(t, label+"-kind") {
 	case 0:
 		s.Ready = false
